@@ -124,7 +124,7 @@ def decodeDop : (fuel : Nat) → Dop → DecM PVal
         pure (.list [.none, .none])
       | some (name, st) => do
         let v ← (match st with
-          | some d => decodeDop fuel d
+          | some d => decodeParam fuel (.mk "" (some bytePos) none (.value d none))
           | none => pure (.dict []))
         modifyS fun s' => { s' with origin := s.origin }
         pure (.pair name v)
